@@ -27,105 +27,106 @@ def run(ctx):
     })
     files = ["hypergraphx/dynamics/contagion.py", "hypergraphx/dynamics/randwalk.py"]
     ctx.add_sites(res, ctx.sites(rules=("C-SIG", "K-ARG"), files=files))
-    v = ctx.view("contagion.simplicial_contagion")
-    f = v.fi.short
-    whiles = [n for n in walk_no_nested(v.fi.node) if isinstance(n, ast.While)]
-    if len(whiles) != 1:
-        raise AnalysisError(f"{f}: time loop not recognised")
-    wl = whiles[0]
-    sweeps = [n for n in wl.body if isinstance(n, ast.For)]
-    if len(sweeps) != 1 or not isinstance(sweeps[0].target, ast.Name):
-        raise AnalysisError(f"{f}: node sweep not recognised")
-    sw = sweeps[0]
-    node = sw.target.id
-    # the buffers: the one assigned from a copy inside the loop before the sweep is NEW, its source is OLD
-    pre = [n for n in wl.body if isinstance(n, ast.Assign) and n.lineno < sw.lineno and isinstance(n.targets[0], ast.Name)]
-    creators = [n for n in walk_no_nested(v.fi.node) if isinstance(n, ast.Assign) and isinstance(n.targets[0], ast.Name) and isinstance(n.value, ast.Call) and norm(n.value.func).endswith(".copy") and n.lineno < sw.lineno]
-    # names subscripted inside the sweep
-    used = {}
-    for n in ast.walk(sw):
-        if isinstance(n, ast.Subscript) and isinstance(n.value, ast.Name):
-            used.setdefault(n.value.id, []).append(n)
-    written = {name for name, subs in used.items() if any(isinstance(s.ctx, ast.Store) for s in subs)}
-    if len(written) != 1:
-        raise AnalysisError(f"{f}: expected exactly one buffer written inside the sweep, found {sorted(written)}")
-    new = written.pop()
-    new_defs = [n for n in creators if n.targets[0].id == new]
-    res.check(bool(new_defs), "E-DBUF", f, f"{new} = <old>.copy()", "fresh-copy", f"the new buffer `{new}` is not created as a copy of the old state", loc(v.fi, wl))
-    old = norm(new_defs[-1].value.func.value) if new_defs else None
-    per_sweep = bool(new_defs) and all(any(d is x for x in wl.body) for d in new_defs)
-    # reads inside the sweep
-    for name, subs in used.items():
-        for s in subs:
-            if isinstance(s.ctx, ast.Store):
-                res.check(name == new and norm(s.slice) == node, "E-DBUF", f, norm(s), "write-new-own", f"the sweep writes `{norm(s)}`: only the new buffer at the node being updated may be written", loc(v.fi, s))
-            elif name == new:
-                res.check(norm(s.slice) == node, "E-DBUF", f, norm(s), "read-new-own", f"the state of another node is read from the NEW buffer (`{norm(s)}`): updates of this sweep leak into it (asynchronous update)", loc(v.fi, s))
-            elif name == old:
-                res.ok("E-DBUF", f, norm(s), "read-old", loc(v.fi, s))
-    # hand-over after the sweep
-    post = [n for n in wl.body if isinstance(n, ast.Assign) and n.lineno > sw.end_lineno and isinstance(n.targets[0], ast.Name) and n.targets[0].id == old]
-    res.check(len(post) == 1, "E-DBUF", f, f"{old} = {new}.copy()", "hand-over", "the old buffer is not replaced by the new state after the sweep", loc(v.fi, wl))
-    for p in post:
-        val = p.value
-        is_copy = isinstance(val, ast.Call) and (norm(val.func) == f"{new}.copy" or (norm(val.func) in ("dict", "copy.copy", "copy.deepcopy", "np.copy") and val.args and norm(val.args[0]) == new))
-        is_alias = isinstance(val, ast.Name) and val.id == new
-        # two sound disciplines: (A) the new buffer is re-created from the old one in every sweep (hand-over may then alias),
-        # (B) the new buffer lives across sweeps and the old one receives a COPY of it.  Neither => one shared object.
-        res.check((per_sweep and (is_copy or is_alias)) or (not per_sweep and is_copy), "E-DBUF", f, f"{norm(new_defs[-1]) if new_defs else new} ... {norm(p)}", "distinct-buffers", "old and new state become one object from the second sweep on (the new buffer is not re-created per sweep and the hand-over is an alias): nodes updated later in a sweep see this sweep's infections", loc(v.fi, p))
-    # D-ORDER
-    calls = {}
-    for n in ast.walk(sw):
-        if isinstance(n, ast.Call) and isinstance(n.func, ast.Attribute) and n.func.attr in ("get_neighbors", "get_incident_edges"):
-            calls.setdefault(n.func.attr, []).append(n)
-    for meth, want in (("get_neighbors", 1), ("get_incident_edges", 2)):
-        cs = calls.get(meth, [])
-        res.check(len(cs) == 1, "D-ORDER", f, meth, "present", f"the sweep does not consult {meth} exactly once", loc(v.fi, sw))
-        for c in cs:
-            kw = {k.arg: k.value for k in c.keywords}
-            o = kw.get("order")
-            sz = kw.get("size")
-            ok = (isinstance(o, ast.Constant) and o.value == want) or (isinstance(sz, ast.Constant) and sz.value == want + 1)
-            res.check(ok and c.args and norm(c.args[0]) == node, "D-ORDER", f, norm(c), f"order={want}", f"{meth} is not restricted to order {want} of the node being updated", loc(v.fi, c))
-    # D-SERIES
-    rets = [n for n in walk_no_nested(v.fi.node) if isinstance(n, ast.Return)]
-    series = None
-    for r in rets:
-        if isinstance(r.value, ast.BinOp) and isinstance(r.value.op, ast.Div) and isinstance(r.value.left, ast.Name):
-            series = r.value.left.id
-            den = norm(r.value.right)
-            ddef = [n for n in walk_no_nested(v.fi.node) if isinstance(n, ast.Assign) and norm(n.targets[0]) == den]
-            res.check(bool(ddef) and norm(ddef[-1].value) in ("len(I_0)", "len(nodes)", "hypergraph.num_nodes()"), "D-SERIES", f, norm(r), "divisor", "the infected counts are not divided by the population size", loc(v.fi, r))
-    if series is None:
-        raise AnalysisError(f"{f}: return idiom not recognised")
-    st = [n for n in walk_no_nested(v.fi.node) if isinstance(n, ast.Assign) and isinstance(n.targets[0], ast.Subscript) and norm(n.targets[0].value) == series]
-    first = [s for s in st if isinstance(s.targets[0].slice, ast.Constant) and s.targets[0].slice.value == 0]
-    res.check(len(first) == 1 and wl not in v.enclosing_all(first[0], (ast.While,)), "D-SERIES", f, norm(first[0]) if first else f"{series}[0] = Infected", "initial", "the series does not start at the initial infected count", loc(v.fi, v.fi.node))
-    if first:
-        src = norm(first[0].value)
-        d0 = [n for n in walk_no_nested(v.fi.node) if isinstance(n, ast.Assign) and norm(n.targets[0]) == src and n.lineno < first[0].lineno]
-        res.check(bool(d0) and norm(d0[-1].value) == "sum(I_0.values())", "D-SERIES", f, norm(d0[-1]) if d0 else src, "initial-count", "the initial value is not the number of initially infected nodes", loc(v.fi, first[0]))
-    # early termination only in the state that is absorbing for every rate triple (nobody infected)
-    res.rules["G-ABSORB"] = "the time loop runs while `Infected > 0 and t < T`: the only early exit is the die-out state, which is absorbing for all rates"
-    atoms = []
-    t_ = wl.test
-    vals = t_.values if isinstance(t_, ast.BoolOp) and isinstance(t_.op, ast.And) else [t_]
-    ok_guard = True
-    for a in vals:
-        txt = norm(a)
-        if txt in ("Infected > 0", "0 < Infected", "Infected != 0", "Infected"):
-            atoms.append("alive")
-        elif txt in ("t < T", "T > t"):
-            atoms.append("time")
-        else:
-            ok_guard = False
-    res.check(ok_guard and "time" in atoms and not (isinstance(t_, ast.BoolOp) and isinstance(t_.op, ast.Or)), "G-ABSORB", f, norm(wl.test), "loop-guard", "the simulation stops early in a state that is not absorbing for every rate triple (e.g. everybody infected, while recovery can still happen)", loc(v.fi, wl))
-    inner = [s for s in st if s not in first and wl in v.enclosing_all(s, (ast.While,))]
-    res.check(len(inner) == 1 and any(inner[0] is x for x in wl.body) and inner[0].lineno > sw.end_lineno, "D-SERIES", f, norm(inner[0]) if inner else f"{series}[t] = Infected", "per-step", "the count is not recorded once per step after the sweep", loc(v.fi, wl))
-    if inner:
-        src = norm(inner[0].value)
-        dd = [n for n in wl.body if isinstance(n, ast.Assign) and norm(n.targets[0]) == src]
-        res.check(bool(dd) and norm(dd[-1].value) == f"sum({new}.values())", "D-SERIES", f, norm(dd[-1]) if dd else src, "count-of-new", "the recorded count is not the number of infected nodes of the new state", loc(v.fi, inner[0]))
+    with res.guard("simplicial contagion: double buffer, orders, series, loop guard"):
+        v = ctx.view("contagion.simplicial_contagion")
+        f = v.fi.short
+        whiles = [n for n in walk_no_nested(v.fi.node) if isinstance(n, ast.While)]
+        if len(whiles) != 1:
+            raise AnalysisError(f"{f}: time loop not recognised")
+        wl = whiles[0]
+        sweeps = [n for n in wl.body if isinstance(n, ast.For)]
+        if len(sweeps) != 1 or not isinstance(sweeps[0].target, ast.Name):
+            raise AnalysisError(f"{f}: node sweep not recognised")
+        sw = sweeps[0]
+        node = sw.target.id
+        # the buffers: the one assigned from a copy inside the loop before the sweep is NEW, its source is OLD
+        pre = [n for n in wl.body if isinstance(n, ast.Assign) and n.lineno < sw.lineno and isinstance(n.targets[0], ast.Name)]
+        creators = [n for n in walk_no_nested(v.fi.node) if isinstance(n, ast.Assign) and isinstance(n.targets[0], ast.Name) and isinstance(n.value, ast.Call) and norm(n.value.func).endswith(".copy") and n.lineno < sw.lineno]
+        # names subscripted inside the sweep
+        used = {}
+        for n in ast.walk(sw):
+            if isinstance(n, ast.Subscript) and isinstance(n.value, ast.Name):
+                used.setdefault(n.value.id, []).append(n)
+        written = {name for name, subs in used.items() if any(isinstance(s.ctx, ast.Store) for s in subs)}
+        if len(written) != 1:
+            raise AnalysisError(f"{f}: expected exactly one buffer written inside the sweep, found {sorted(written)}")
+        new = written.pop()
+        new_defs = [n for n in creators if n.targets[0].id == new]
+        res.check(bool(new_defs), "E-DBUF", f, f"{new} = <old>.copy()", "fresh-copy", f"the new buffer `{new}` is not created as a copy of the old state", loc(v.fi, wl))
+        old = norm(new_defs[-1].value.func.value) if new_defs else None
+        per_sweep = bool(new_defs) and all(any(d is x for x in wl.body) for d in new_defs)
+        # reads inside the sweep
+        for name, subs in used.items():
+            for s in subs:
+                if isinstance(s.ctx, ast.Store):
+                    res.check(name == new and norm(s.slice) == node, "E-DBUF", f, norm(s), "write-new-own", f"the sweep writes `{norm(s)}`: only the new buffer at the node being updated may be written", loc(v.fi, s))
+                elif name == new:
+                    res.check(norm(s.slice) == node, "E-DBUF", f, norm(s), "read-new-own", f"the state of another node is read from the NEW buffer (`{norm(s)}`): updates of this sweep leak into it (asynchronous update)", loc(v.fi, s))
+                elif name == old:
+                    res.ok("E-DBUF", f, norm(s), "read-old", loc(v.fi, s))
+        # hand-over after the sweep
+        post = [n for n in wl.body if isinstance(n, ast.Assign) and n.lineno > sw.end_lineno and isinstance(n.targets[0], ast.Name) and n.targets[0].id == old]
+        res.check(len(post) == 1, "E-DBUF", f, f"{old} = {new}.copy()", "hand-over", "the old buffer is not replaced by the new state after the sweep", loc(v.fi, wl))
+        for p in post:
+            val = p.value
+            is_copy = isinstance(val, ast.Call) and (norm(val.func) == f"{new}.copy" or (norm(val.func) in ("dict", "copy.copy", "copy.deepcopy", "np.copy") and val.args and norm(val.args[0]) == new))
+            is_alias = isinstance(val, ast.Name) and val.id == new
+            # two sound disciplines: (A) the new buffer is re-created from the old one in every sweep (hand-over may then alias),
+            # (B) the new buffer lives across sweeps and the old one receives a COPY of it.  Neither => one shared object.
+            res.check((per_sweep and (is_copy or is_alias)) or (not per_sweep and is_copy), "E-DBUF", f, f"{norm(new_defs[-1]) if new_defs else new} ... {norm(p)}", "distinct-buffers", "old and new state become one object from the second sweep on (the new buffer is not re-created per sweep and the hand-over is an alias): nodes updated later in a sweep see this sweep's infections", loc(v.fi, p))
+        # D-ORDER
+        calls = {}
+        for n in ast.walk(sw):
+            if isinstance(n, ast.Call) and isinstance(n.func, ast.Attribute) and n.func.attr in ("get_neighbors", "get_incident_edges"):
+                calls.setdefault(n.func.attr, []).append(n)
+        for meth, want in (("get_neighbors", 1), ("get_incident_edges", 2)):
+            cs = calls.get(meth, [])
+            res.check(len(cs) == 1, "D-ORDER", f, meth, "present", f"the sweep does not consult {meth} exactly once", loc(v.fi, sw))
+            for c in cs:
+                kw = {k.arg: k.value for k in c.keywords}
+                o = kw.get("order")
+                sz = kw.get("size")
+                ok = (isinstance(o, ast.Constant) and o.value == want) or (isinstance(sz, ast.Constant) and sz.value == want + 1)
+                res.check(ok and c.args and norm(c.args[0]) == node, "D-ORDER", f, norm(c), f"order={want}", f"{meth} is not restricted to order {want} of the node being updated", loc(v.fi, c))
+        # D-SERIES
+        rets = [n for n in walk_no_nested(v.fi.node) if isinstance(n, ast.Return)]
+        series = None
+        for r in rets:
+            if isinstance(r.value, ast.BinOp) and isinstance(r.value.op, ast.Div) and isinstance(r.value.left, ast.Name):
+                series = r.value.left.id
+                den = norm(r.value.right)
+                ddef = [n for n in walk_no_nested(v.fi.node) if isinstance(n, ast.Assign) and norm(n.targets[0]) == den]
+                res.check(bool(ddef) and norm(ddef[-1].value) in ("len(I_0)", "len(nodes)", "hypergraph.num_nodes()"), "D-SERIES", f, norm(r), "divisor", "the infected counts are not divided by the population size", loc(v.fi, r))
+        if series is None:
+            raise AnalysisError(f"{f}: return idiom not recognised")
+        st = [n for n in walk_no_nested(v.fi.node) if isinstance(n, ast.Assign) and isinstance(n.targets[0], ast.Subscript) and norm(n.targets[0].value) == series]
+        first = [s for s in st if isinstance(s.targets[0].slice, ast.Constant) and s.targets[0].slice.value == 0]
+        res.check(len(first) == 1 and wl not in v.enclosing_all(first[0], (ast.While,)), "D-SERIES", f, norm(first[0]) if first else f"{series}[0] = Infected", "initial", "the series does not start at the initial infected count", loc(v.fi, v.fi.node))
+        if first:
+            src = norm(first[0].value)
+            d0 = [n for n in walk_no_nested(v.fi.node) if isinstance(n, ast.Assign) and norm(n.targets[0]) == src and n.lineno < first[0].lineno]
+            res.check(bool(d0) and norm(d0[-1].value) == "sum(I_0.values())", "D-SERIES", f, norm(d0[-1]) if d0 else src, "initial-count", "the initial value is not the number of initially infected nodes", loc(v.fi, first[0]))
+        # early termination only in the state that is absorbing for every rate triple (nobody infected)
+        res.rules["G-ABSORB"] = "the time loop runs while `Infected > 0 and t < T`: the only early exit is the die-out state, which is absorbing for all rates"
+        atoms = []
+        t_ = wl.test
+        vals = t_.values if isinstance(t_, ast.BoolOp) and isinstance(t_.op, ast.And) else [t_]
+        ok_guard = True
+        for a in vals:
+            txt = norm(a)
+            if txt in ("Infected > 0", "0 < Infected", "Infected != 0", "Infected"):
+                atoms.append("alive")
+            elif txt in ("t < T", "T > t"):
+                atoms.append("time")
+            else:
+                ok_guard = False
+        res.check(ok_guard and "time" in atoms and not (isinstance(t_, ast.BoolOp) and isinstance(t_.op, ast.Or)), "G-ABSORB", f, norm(wl.test), "loop-guard", "the simulation stops early in a state that is not absorbing for every rate triple (e.g. everybody infected, while recovery can still happen)", loc(v.fi, wl))
+        inner = [s for s in st if s not in first and wl in v.enclosing_all(s, (ast.While,))]
+        res.check(len(inner) == 1 and any(inner[0] is x for x in wl.body) and inner[0].lineno > sw.end_lineno, "D-SERIES", f, norm(inner[0]) if inner else f"{series}[t] = Infected", "per-step", "the count is not recorded once per step after the sweep", loc(v.fi, wl))
+        if inner:
+            src = norm(inner[0].value)
+            dd = [n for n in wl.body if isinstance(n, ast.Assign) and norm(n.targets[0]) == src]
+            res.check(bool(dd) and norm(dd[-1].value) == f"sum({new}.values())", "D-SERIES", f, norm(dd[-1]) if dd else src, "count-of-new", "the recorded count is not the number of infected nodes of the new state", loc(v.fi, inner[0]))
 
     # ---- transition matrix
     with res.guard("transition matrix"):
